@@ -126,7 +126,47 @@ def rejected_parent_flags(ctx, f, P, subst):
     return flags
 
 
+def orphan_index(ctx):
+    """The genuine orphan must stay reachable from its parent's outpoints while a malleated twin (same prevouts) comes and goes:
+    the outpoint index is filled for every input when an orphan is added, an outpoint's entry is dropped only when no orphan
+    spends it any more, and only the erased orphan's wtxid is taken out of the per-outpoint set."""
+    P = ctx.program(["node/txorphanage.cpp"])
+    IDX = "node::TxOrphanageImpl::m_outpoint_to_orphan_wtxids"
+    er = ctx.used(P.fn("node::TxOrphanageImpl::Erase"))
+    sub = naming(er, P)
+    is_idx = lambda e: is_expr(e) and e[0] == "." and e[2] == IDX
+    drops = sites(er, lambda e: e[0] == "mcall" and e[1].endswith("::erase") and is_idx(e[2]), P)
+    ctx.floor("orphanage Erase: outpoint-index key removals", len(drops), 1)
+    emp = {"EMPTY": [re.compile(r".*\.second\.empty\(\)"), (re.compile(r".*\.second\.size\(\)"), False), re.compile(r".*\.second\.size\(\) < 1")]}
+    for s_ in drops:
+        f0 = F.mk_and([g.formula(sub) for g in s_.guards if g.kind in ("if", "sc")])
+        fb, mp, un = F.bind_atoms(f0, emp)
+        cex = F.counterexample(fb, F.parse("EMPTY"))
+        ctx.ob("orphanage/Erase/index-key-dropped-only-when-empty@L%s" % s_.line, "MPT", "erasing an orphan removes an outpoint's index entry only when no other orphan "
+               "(e.g. the genuine twin of a malleated copy) still spends that outpoint", cex is None, s_.where, None if cex is None else {"guard": F.fshow(f0), "counterexample": cex})
+    inner = sites(er, lambda e: e[0] == "mcall" and e[1].endswith("::erase") and not is_idx(e[2]) and "second" in show(e[2]) and "m_outpoint_to_orphan_wtxids" in show(F.expand(e[2], sub)), P)
+    ctx.floor("orphanage Erase: per-outpoint set removals", len(inner), 1)
+    for s_ in inner:
+        a = call_args(s_.expr)
+        ok = len(a) == 1 and show(F.expand(a[0], sub)).endswith("GetWitnessHash()")
+        loops = [loop_range_key(l, sub) for l in s_.loops]
+        ok = ok and any(k.endswith(".vin)") for k in loops)
+        ctx.ob("orphanage/Erase/only-own-wtxid@L%s" % s_.line, "PROVENANCE", "for every input of the erased orphan exactly its own wtxid is removed from that outpoint's set",
+               ok, s_.where, {"arg": show(a[0]) if a else None, "loops": loops})
+    add = ctx.used(P.fn("node::TxOrphanageImpl::AddTx"))
+    asub = naming(add, P)
+    ins = [s_ for s_ in sites(add, lambda e: e[0] == "mcall" and e[1].endswith("::try_emplace") and is_idx(e[2]), P)]
+    ctx.floor("orphanage AddTx: index insertions", len(ins), 1)
+    for s_ in ins:
+        loops = [(l, loop_range_key(l, asub)) for l in s_.loops]
+        ok = len(loops) == 1 and loops[0][1].endswith(".vin)") and not has_break(loops[0][0]["b"]) and show(F.expand(call_args(s_.expr)[0], asub)).endswith(".prevout")
+        own = [g for g in s_.guards if g.kind in ("if", "sc") and g.line >= loops[0][0].get("l", 0)] if loops else [1]
+        ctx.ob("orphanage/AddTx/index-every-input@L%s" % s_.line, "LOOP", "a new orphan is indexed under the prevout of every one of its inputs (complete loop over vin, unconditional)",
+               ok and not own, s_.where, {"loops": [k for _, k in loops]})
+
+
 def check(ctx):
+    orphan_index(ctx)
     P = ctx.program(UNITS)
     f = ctx.used(P.fn(Q + "MempoolRejectedTx"))
     subst = naming(f, P)
